@@ -82,14 +82,20 @@ type Conn struct {
 	rdl, wdl     time.Time
 	unblock      chan struct{}
 	ExpiredReads int
+	// injErr is THE error value this connection returns for "inject" reads and failed writes: ErrInjected inside a
+	// wrapper of its own (as socket errors come inside *net.OpError), so that a caller can ask errors.Is(err, conn.InjectedErr())
+	injErr error
 }
+
+// InjectedErr returns the wrapper instance this connection hands out for injected I/O failures.
+func (c *Conn) InjectedErr() error { return c.injErr }
 
 // NewConn creates a scripted connection.
 func NewConn(s Script, clk *Clock) *Conn {
 	if clk == nil {
 		clk = &Clock{}
 	}
-	return &Conn{S: s, Clock: clk, unblock: make(chan struct{})}
+	return &Conn{S: s, Clock: clk, unblock: make(chan struct{}), injErr: &net.OpError{Op: "read", Net: "verif", Err: ErrInjected}}
 }
 
 func kindErr(k string) error {
@@ -184,8 +190,14 @@ func (c *Conn) Read(p []byte) (int, error) {
 		copy(p, c.S.Reply[c.pos:c.pos+n])
 		c.pos += n
 		err = kindErr(st.Err)
+		if st.Err == "inject" {
+			err = c.injErr
+		}
 	} else {
 		err = kindErr(c.S.Tail)
+		if c.S.Tail == "inject" {
+			err = c.injErr
+		}
 		if err == nil && c.S.Tail != "zero" { // "zero": a port whose read timeout shows as (0, nil)
 			err = os.ErrDeadlineExceeded
 		}
@@ -208,8 +220,8 @@ func (c *Conn) Write(p []byte) (int, error) {
 	c.mu.Lock()
 	defer c.mu.Unlock()
 	if c.S.WriteErr {
-		c.log("write", 0, ErrInjected, p)
-		return 0, ErrInjected
+		c.log("write", 0, c.injErr, p)
+		return 0, c.injErr
 	}
 	if c.Net && !c.wdl.IsZero() && time.Now().After(c.wdl) {
 		c.log("write", 0, os.ErrDeadlineExceeded, p)
